@@ -6,6 +6,7 @@ unmodified on these proxies; whenever it needs a concrete truth value the
 current Path is asked (`branch`), and the driver (`explore`) re-executes the
 function once per feasible decision sequence.
 """
+import threading
 import time
 import z3
 
@@ -75,12 +76,20 @@ class Path:
     def check(self, *extra, model=False):
         t = time.time()
         self.solver.push()
+        # z3's own timeout is not always honoured inside preprocessing: a watchdog interrupts the context
+        dog = threading.Timer(self.timeout_ms / 1000.0 + 10, self.solver.ctx.interrupt)
+        dog.daemon = True
+        dog.start()
         try:
             for e in extra:
                 self.solver.add(e)
-            r = self.solver.check()
+            try:
+                r = self.solver.check()
+            except z3.Z3Exception:
+                r = z3.unknown
             m = self.solver.model() if (model and r == z3.sat) else None
         finally:
+            dog.cancel()
             self.solver.pop()
             self.stats.queries += 1
             self.stats.solver_s += time.time() - t
@@ -88,6 +97,25 @@ class Path:
         if r == 'unknown':
             self.stats.unknown += 1
         return (r, m) if model else r
+
+    def check_any(self, diffs, names=None):
+        """is any of the z3 Bools `diffs` satisfiable on this path?  Decided one disjunct at a time (after simplification),
+        which is far cheaper for z3 than one big disjunction.  -> ('unsat', None, None) | ('sat', model, [names]) | ('unknown', None, None)"""
+        live = []
+        for i, d in enumerate(diffs):
+            ds = z3.simplify(d)
+            if z3.is_false(ds):
+                continue
+            live.append((i, ds))
+        unknown = False
+        for i, ds in live:
+            r, m = self.check(ds, model=True)
+            if r == 'sat':
+                which = [names[j] if names else str(j) for j, dd in live if z3.is_true(m.eval(dd, model_completion=True))]
+                return 'sat', m, which
+            if r == 'unknown':
+                unknown = True
+        return ('unknown' if unknown else 'unsat'), None, None
 
     def fresh(self, name='v', width=W):
         self.nfresh += 1
